@@ -178,4 +178,55 @@ theorem fill_append (types : List (Int × Bool)) : ∀ (prev : Nat) (a b : List 
     rw [List.getLast?_eq_some_getLast (List.cons_ne_nil q r)]
     rfl
 
+/-! ### an extended table: recorded entries followed by the generated part of a chain -/
+
+/-- entries of the extended table for recorded entries `esRec` and instant functions `s e` -/
+def extEntries (esRec : List (Int × Nat)) (s e : Int → Int) (dstTi stdTi : Nat) (L y0 : Int) :
+    List (Int × Nat) := esRec ++ (genList s e dstTi stdTi L y0).map key
+
+theorem wf_mkZone_ext (types : List (Int × Bool)) (d : Nat) (esRec : List (Int × Nat))
+    (s e : Int → Int) (dstTi stdTi : Nat) (L y0 : Int) (c : Chain s e)
+    (hne : esRec ≠ []) (hs : (esRec.map (·.1)).Pairwise (· < ·)) (hL : ∀ p ∈ esRec, p.1 ≤ L)
+    (hty : ∀ p ∈ esRec, p.2 < types.length) (hd : d < types.length)
+    (hdst : dstTi < types.length) (hstd : stdTi < types.length) :
+    TableWF (mkZone types d (extEntries esRec s e dstTi stdTi L y0)) := by
+  apply wf_mkZone
+  · unfold extEntries; simp [hne]
+  · unfold extEntries
+    rw [List.map_append, List.pairwise_append]
+    refine ⟨hs, ?_, ?_⟩
+    · rw [List.map_map]
+      exact (List.pairwise_map (f := (fun p : Int × Nat => p.1) ∘ key) (R := (· < ·))).2
+        (genList_pairwise c dstTi stdTi L y0)
+    · intro a ha b hb
+      obtain ⟨p, hp, rfl⟩ := List.mem_map.1 ha
+      rw [List.map_map] at hb
+      obtain ⟨x, hx, rfl⟩ := List.mem_map.1 hb
+      have h1 := hL p hp
+      obtain ⟨y, _, _, h | h⟩ := (mem_genList _ _ _ _ _ _ _).1 hx
+      · show p.1 < x.unixTime
+        rw [h.1]; show p.1 < s y; omega
+      · show p.1 < x.unixTime
+        rw [h.1]; show p.1 < e y; omega
+  · intro p hp
+    unfold extEntries at hp
+    rcases List.mem_append.1 hp with h | h
+    · exact hty p h
+    · obtain ⟨x, hx, rfl⟩ := List.mem_map.1 h
+      obtain ⟨y, _, _, h | h⟩ := (mem_genList _ _ _ _ _ _ _).1 hx
+      · show x.typeIndex < _; rw [h.1]; exact hdst
+      · show x.typeIndex < _; rw [h.1]; exact hstd
+  · exact hd
+
+/-- the table is the recorded entries followed by entries that agree with the generated part in
+the time and type columns -/
+theorem keys_mkZone_ext (types : List (Int × Bool)) (d : Nat) (esRec : List (Int × Nat))
+    (s e : Int → Int) (dstTi stdTi : Nat) (L y0 : Int) :
+    ∃ gen, (mkZone types d (extEntries esRec s e dstTi stdTi L y0)).transitions.toList =
+        fill types d esRec ++ gen ∧
+      gen.map key = (genList s e dstTi stdTi L y0).map key := by
+  refine ⟨fill types ((esRec.getLast?.map (·.2)).getD d) ((genList s e dstTi stdTi L y0).map key), ?_, ?_⟩
+  · rw [toList_mkZone]; unfold extEntries; rw [fill_append]
+  · rw [fill_keys]
+
 end Cctz.Rg
